@@ -406,6 +406,41 @@ func runC04(r *core.Run) {
 			return core.Outcome{Class: fmt.Sprint("blocks=", c.N < 0), Nontrivial: c.N >= 2 || c.N < -1, Evals: 4}
 		})
 
+	r.Bound("marked-offsets", markBounds+"; fields Chrom / Name (N=4) and Strand-less N=12 Name, bytes '#', '\"'"+core.Pick(r, "", " and ',', ' ', 0x00, 0xFF")+"; '#' never first in Chrom")
+	core.Clause(r, "marked-offsets", core.Opts{Rule: "a format-vocabulary byte at EVERY offset of a long Chrom or Name (it meets every internal buffer boundary of the reader); written, read back as the middle line of three; non-trivial = all"},
+		genMarks([]string{"chrom", "name", "name12"}, core.Pick(r, []int{'#', '"'}, []int{'#', '"', ',', ' ', 0x00, 0xFF}), func(f string, b, off int) bool { return f == "chrom" && b == '#' && off == 0 }),
+		func(c markCase) core.Outcome {
+			n := 4
+			if c.Field == "name12" {
+				n = 12
+			}
+			first, mid, last := defaultBed(n), defaultBed(n), defaultBed(n)
+			if c.Field == "chrom" {
+				mid.Chrom = core.S(markedField(c, 'c'))
+			} else {
+				mid.Name = core.S(markedField(c, 'n'))
+			}
+			first.Chrom, last.Chrom = "first", "last"
+			var file bytes.Buffer
+			var want []obsItem
+			for _, rc := range []bedRec{first, mid, last} {
+				d, fail := writeBedChecked(rc)
+				if fail != "" {
+					return core.Failf("%s", fail)
+				}
+				file.Write(d)
+				want = append(want, obsItem{Rec: renderBED(rc.expectBack())})
+			}
+			got, p := readBedAll(file.Bytes())
+			if p != "" {
+				return core.Failf("Reader panicked/hung: %s of %d bytes with %q at offset %d: %s", c.Field, c.Len, byte(c.Byte), c.Offset, p)
+			}
+			if !sameShape(got, want) {
+				return core.Failf("%s of %d bytes with %q at offset %d reads back as %s", c.Field, c.Len, byte(c.Byte), c.Offset, trunc(renderObs(got), 300))
+			}
+			return core.Outcome{Class: c.Field, Nontrivial: true, Evals: 4}
+		})
+
 	core.Clause(r, "files", core.Opts{Rule: "for every N, every list of 0..3 records (sharing that N) from a pool of 4 with quotes, '#', empty fields: the reader returns the records in order; non-trivial = at least 2 records"},
 		func(emit func(c04File) bool) {
 			for n := 3; n <= 12; n++ {
